@@ -31,40 +31,33 @@ static string ints(const vector<int> &v)
 }
 
 // ---------------------------------------------------------------- lifetime-observing element type
+// (one registry per model; the model that is about to call into a pool makes its registry current)
 struct Reg
 {
-    static std::map<const void *, unsigned> alive; // address -> value it was constructed with
-    static vector<string> errs;
-    static long ctors, dtors;
-    static void reset()
-    {
-        alive.clear();
-        errs.clear();
-        ctors = dtors = 0;
-    }
+    std::map<const void *, unsigned> alive; // address -> value it was constructed with
+    vector<string> errs;
+    long ctors = 0, dtors = 0;
 };
-std::map<const void *, unsigned> Reg::alive;
-vector<string> Reg::errs;
-long Reg::ctors, Reg::dtors;
+static Reg *g_reg = nullptr;
 
 template <size_t S, size_t Al> struct alignas(Al) Tracked
 {
     unsigned char b[S];
     explicit Tracked(unsigned v)
     {
-        Reg::ctors++;
-        if (Reg::alive.count(this))
-            Reg::errs.push_back("constructed on top of a live object");
-        Reg::alive[this] = v;
+        g_reg->ctors++;
+        if (g_reg->alive.count(this))
+            g_reg->errs.push_back("constructed on top of a live object");
+        g_reg->alive[this] = v;
         for (size_t j = 0; j < S; j++)
             b[j] = pat(v, j);
     }
     ~Tracked()
     {
-        Reg::dtors++;
-        if (!Reg::alive.count(this))
-            Reg::errs.push_back("destructor ran on an object that is not alive");
-        Reg::alive.erase(this);
+        g_reg->dtors++;
+        if (!g_reg->alive.count(this))
+            g_reg->errs.push_back("destructor ran on an object that is not alive");
+        g_reg->alive.erase(this);
     }
     Tracked(const Tracked &) = delete;
 };
@@ -191,13 +184,13 @@ template <class T, size_t N> struct SFlavour : Flavour
         if (esz < sizeof(T) || esz % alignof(T))
             return mc::fmt("geometry: cell size %zu for sizeof(T)=%zu alignof(T)=%zu", esz, sizeof(T), alignof(T));
         // lifetime: exactly the live cells hold a constructed object, constructed with the value the model passed
-        if (Reg::alive.size() != nl)
-            return mc::fmt("lifetime: %zu objects alive, %zu cells live", Reg::alive.size(), nl);
+        if (g_reg->alive.size() != nl)
+            return mc::fmt("lifetime: %zu objects alive, %zu cells live", g_reg->alive.size(), nl);
         for (size_t i = 0; i < cap; i++)
             if (lt[i] >= 0)
             {
-                auto it = Reg::alive.find(zone + i * esz);
-                if (it == Reg::alive.end() || it->second != (unsigned)lt[i])
+                auto it = g_reg->alive.find(zone + i * esz);
+                if (it == g_reg->alive.end() || it->second != (unsigned)lt[i])
                     return mc::fmt("lifetime: cell %zu is live but no object constructed with %d lives there", i, lt[i]);
             }
         return "";
@@ -222,12 +215,15 @@ struct PoolModel : mc::Model
     vector<int> live_tag; // per cell: -1 free, else the tag it was filled / constructed with
     size_t data = 0;
 
-    PoolModel(const string &fl, vector<Conf> c, bool pn) : flav(fl), confs(std::move(c)), has_put_null(pn) { Reg::reset(); }
+    Reg reg;
+
+    PoolModel(const string &fl, vector<Conf> c, bool pn) : flav(fl), confs(std::move(c)), has_put_null(pn) {}
     ~PoolModel()
     {
-        // destroy remaining objects through the pool? no: the pool does not own them; just drop the registry
+        // objects still alive are not destroyed (the pool does not own them); the registry goes with the model
         f.reset();
-        Reg::reset();
+        if (g_reg == &reg)
+            g_reg = nullptr;
     }
 
     int nconf() { return (int)confs.size(); }
@@ -308,6 +304,7 @@ struct PoolModel : mc::Model
 
     bool apply(int o) override
     {
+        g_reg = &reg;
         int o0 = o;
         if (o < nconf())
         {
@@ -338,7 +335,7 @@ struct PoolModel : mc::Model
                 if (walk(ord, why) && !ord.empty())
                     tag = (unsigned)ord[0];
             }
-            long c0 = Reg::ctors;
+            long c0 = g_reg->ctors;
             char *q = (char *)f->get(tag);
             if (full)
                 mc::nontrivial(); // the N+1st request
@@ -349,7 +346,7 @@ struct PoolModel : mc::Model
                     mc::violation(sig(cls, "null_before_capacity"), "%s returned null with %d of %zu cells live; %s", opname(o0).c_str(), nl, f->cap, state_str().c_str());
                     return true;
                 }
-                if (Reg::ctors != c0)
+                if (g_reg->ctors != c0)
                 {
                     mc::violation(sig(cls, "lifetime"), "create() returned null but ran a constructor");
                     return true;
@@ -376,9 +373,9 @@ struct PoolModel : mc::Model
             }
             if (f->typed())
             {
-                if (Reg::ctors != c0 + 1)
+                if (g_reg->ctors != c0 + 1)
                 {
-                    mc::violation(sig(cls, "lifetime"), "create() ran %ld constructors", Reg::ctors - c0);
+                    mc::violation(sig(cls, "lifetime"), "create() ran %ld constructors", g_reg->ctors - c0);
                     return true;
                 }
             }
@@ -395,12 +392,12 @@ struct PoolModel : mc::Model
             if (o >= (int)f->cap || live_tag[o] < 0)
                 return false; // double free / foreign pointer: outside the contract
             mc::crash_context("C10.%s.put", flav.c_str());
-            long d0 = Reg::dtors;
+            long d0 = g_reg->dtors;
             live_tag[o] = -1;
             f->put(f->zone + o * f->esz);
-            if (f->typed() && Reg::dtors != d0 + 1)
+            if (f->typed() && g_reg->dtors != d0 + 1)
             {
-                mc::violation(sig("put", "lifetime"), "destroy() ran %ld destructors", Reg::dtors - d0);
+                mc::violation(sig("put", "lifetime"), "destroy() ran %ld destructors", g_reg->dtors - d0);
                 return true;
             }
             return after("put", o0);
@@ -428,9 +425,9 @@ struct PoolModel : mc::Model
             }
         if (!contents_ok(cls, o))
             return true;
-        if (!Reg::errs.empty())
+        if (!g_reg->errs.empty())
         {
-            mc::violation(sig(cls, "lifetime"), "after %s: %s", opname(o).c_str(), Reg::errs[0].c_str());
+            mc::violation(sig(cls, "lifetime"), "after %s: %s", opname(o).c_str(), g_reg->errs[0].c_str());
             return true;
         }
         string w = f->observers(live_tag);
